@@ -1648,12 +1648,10 @@ numpy.ufunc.reduceat.html
 
         # --- Get some parameters for later --- #
 
-        # Arguments for `writable_array` and/or space constructors
-        out_dtype = kwargs.get('dtype', None)
-        if out_dtype is None:
-            array_kwargs = {}
-        else:
-            array_kwargs = {'dtype': out_dtype}
+        # No conversion of `out` to the `dtype` keyword: Numpy computes in
+        # `dtype` and casts into `out` itself, refusing unsafe casts (a
+        # converted temporary would be written back with unsafe casting)
+        array_kwargs = {}
 
         exponent = self.space.exponent
         weighting = self.space.weighting
